@@ -6,7 +6,7 @@ replayed on the real UtxoScanner whose four config callbacks and condition
 variable lock are gates (harness/overlay/neutrino/zz_verif_utxoscan_test.go);
 TLC evaluates UtxoScanProps on what the callers of the real scanner got.
 """
-import json, os, random, shutil, time
+import json, os, random, shutil, sys, time
 from .. import core, family
 
 SPEC = os.path.join(core.VERIF, "specs", "UtxoScan")
@@ -137,10 +137,15 @@ def config(tier, seed):
     rng = random.Random(seed * 7919 + 17)
     if tier == "quick":
         return [dict(name="q3", chains=[CH3], cat=CAT3, best0s="{2, 3}", MaxReq=2, MaxFail=1,
-                     AllowStop=True, FalsePos=True)]
+                     AllowStop=True, FalsePos=True),
+                # three requests (one running, one deferred, one queued behind): small catalogue, no faults
+                dict(name="q3b", chains=[CH3], cat=[(1, 0, 1), (1, 1, 2), (1, 0, 3), (2, 0, 2)], best0s="{2}",
+                     MaxReq=3, MaxFail=0, AllowStop=False, FalsePos=False)]
     rc, rcat = random_chain(rng, 4)
     return [
-        dict(name="t3", chains=[CH3], cat=CAT3, best0s="{1, 2, 3}", MaxReq=3, MaxFail=1,
+        dict(name="t3", chains=[CH3], cat=CAT3, best0s="{2, 3}", MaxReq=3, MaxFail=1,
+             AllowStop=False, FalsePos=False),
+        dict(name="t3s", chains=[CH3], cat=CAT3, best0s="{1, 2, 3}", MaxReq=2, MaxFail=2,
              AllowStop=True, FalsePos=True),
         dict(name="t4", chains=[CH4], cat=CAT4, best0s="{3, 4}", MaxReq=2, MaxFail=2,
              AllowStop=True, FalsePos=True),
@@ -167,22 +172,117 @@ def label(act):
     return s + "=" + str(act.get("res"))
 
 
+def chains_module(chains, d):
+    """Generates UtxoScanChains.tla (the chain table obs.cid indexes) into directory d."""
+    os.makedirs(d, exist_ok=True)
+    with open(os.path.join(d, "UtxoScanChains.tla"), "w") as f:
+        f.write("---- MODULE UtxoScanChains ----\nChainTable == <<%s>>\n====\n" %
+                ", ".join(tla_chain(c) for c in chains))
+    return d
+
+
 def run_tlc(cfg, sc, export=True):
     consts = dict(MaxReq=cfg["MaxReq"], MaxFail=cfg["MaxFail"], AllowStop=cfg["AllowStop"],
                   FalsePos=cfg["FalsePos"], Best0s=cfg["best0s"])
     consts.update(CODE_VERSION)
-    defs = "ChainsDef == <<%s>>\nCatDef == %s\n" % (", ".join(tla_chain(c) for c in cfg["chains"]),
-                                                   tla_cat(cfg["cat"]))
-    tlc = core.run_tlc([SPEC], "UtxoScan", consts, workers=1, invariants=["TypeOK", "Disjoint"],
+    gen = chains_module(cfg["chains"], os.path.join(sc, "gen-" + cfg["name"]))
+    defs = "CatDef == %s\n" % tla_cat(cfg["cat"])
+    tlc = core.run_tlc([SPEC, gen], "UtxoScan", consts, workers=1, invariants=["TypeOK", "Disjoint"],
                        workdir=os.path.join(sc, "tlc-" + cfg["name"]), timeout=3000, extra_defs=defs,
-                       cfg_extra="CONSTANT Chains <- ChainsDef\nCONSTANT Cat <- CatDef\n")
+                       cfg_extra="CONSTANT Cat <- CatDef\n")
     if not tlc.ok:
         raise core.MachineryError("TLC on UtxoScan (%s) failed: %s\n%s" % (cfg["name"], tlc.error,
                                                                          tlc.stdout_tail[-3000:]))
-    return tlc
+    return tlc, gen
 
 
-class _Sum:
+def run_driver(binary, pf, of, sc, chains):
+    """Like family.run_driver, but leaves the observed traces in the file `of`."""
+    import subprocess
+    env = core.go_env()
+    env.update({"VERIF_PATHS": pf, "VERIF_OUT": of, "VERIF_SCRATCH": sc,
+                "VERIF_UX_CHAINS": json.dumps(chains)})
+    p = subprocess.run([binary, "-test.run", "^TestVerifUtxoScanReplay$", "-test.count=1",
+                        "-test.timeout", "7200s"], cwd=sc, env=env,
+                       stdout=subprocess.PIPE, stderr=subprocess.STDOUT, text=True)
+    if p.returncode != 0 or not os.path.exists(of):
+        raise core.MachineryError("driver failed rc=%d:\n%s" % (p.returncode, p.stdout[-6000:]))
+
+
+class _Acc:
+    """Accumulates verdicts, drift and light-weight trace summaries over chunks and configurations
+    (the observed traces themselves are streamed: a thorough run has millions of steps)."""
+
+    def __init__(self):
+        self.verdict = {"violations": [], "known": {}, "n_lines": 0, "wall": 0.0, "raw": 0}
+        self.light = []          # what family.finish needs of every trace
+        self.drift_steps = self.drift_n = 0
+        self.drift_samples = []
+        self.hung = self.panics = 0
+
+    def chunk(self, prop_id, gen, chains, tag, pf, index, chunk, sc):
+        v = family.judge([SPEC, gen], "UtxoScanProps", PROPS[prop_id], prop_id, chunk, label=label)
+        tmp = os.path.join(sc, "exp-chunk.ndjson")
+        with open(pf, "rb") as f, open(tmp, "wb") as o:
+            for t in chunk:
+                f.seek(index[t["id"]])
+                o.write(f.readline())
+        ds, dn, dsm = family.drift(tmp, chunk, label=label)
+        os.remove(tmp)
+        for x in v["violations"]:
+            x["trace"] = "%s/%s" % (tag, x["trace"])
+            x["observed"]["chains"] = chains      # makes the saved replay self-contained
+        for x in dsm:
+            x["trace"] = "%s/%s" % (tag, x["trace"])
+        self.verdict["violations"] += v["violations"]
+        for k in ("n_lines", "wall", "raw"):
+            self.verdict[k] += v[k]
+        for k, x in v["known"].items():
+            if k in self.verdict["known"]:
+                self.verdict["known"][k]["count"] += x["count"]
+            else:
+                self.verdict["known"][k] = x
+        self.drift_steps += ds
+        self.drift_n += dn
+        self.drift_samples += dsm[:2]
+        for t in chunk:
+            self.hung += sum(1 for s in t["steps"] if s["obs"].get("pc") == 9)
+            self.panics += sum(1 for s in t["steps"] if s["obs"].get("pc") == 8)
+            if len(self.light) < 3 or t.get("error"):
+                self.light.append(t)
+            else:
+                self.light.append({"id": t["id"], "steps": [None] * len(t["steps"])})
+        return dn
+
+
+def replay_and_judge(prop_id, acc, binary, gen, chains, tag, pf, sc, max_lines=150000):
+    of = os.path.join(sc, "obs-%s.ndjson" % tag)
+    run_driver(binary, pf, of, sc, chains)
+    index = {}
+    with open(pf, "rb") as f:
+        while True:
+            off = f.tell()
+            line = f.readline()
+            if not line:
+                break
+            m = line[:40].split(b'"id":', 1)[1]
+            index[int(m.split(b",", 1)[0])] = off
+    chunk, n, dn = [], 0, 0
+    for line in open(of):
+        t = json.loads(line)
+        t.pop("chains", None)
+        chunk.append(t)
+        n += len(t["steps"]) + 1
+        if n >= max_lines:
+            dn += acc.chunk(prop_id, gen, chains, tag, pf, index, chunk, sc)
+            chunk, n = [], 0
+    if chunk:
+        dn += acc.chunk(prop_id, gen, chains, tag, pf, index, chunk, sc)
+    os.remove(of)
+    return dn
+
+
+class _G:
     pass
 
 
@@ -192,75 +292,60 @@ def run(prop_id, tier, seed, replay=None):
     sc = core.scratch("ux")
     try:
         binary = family.build_overlay_test(PKG, [DRIVER], os.path.join(sc, "neutrino.test"))
-        if replay:
-            pf = os.path.join(sc, "paths.ndjson")
-            family.paths_from_replay(replay, pf)
-            observed, log = family.run_driver(binary, "TestVerifUtxoScanReplay", pf,
-                                              os.path.join(sc, "obs.ndjson"), sc, cwd=sc)
-            verdict = family.judge([SPEC], "UtxoScanProps", PROPS[prop_id], prop_id, observed, label=label)
-            dr = family.drift(pf, observed, label=label)
-            return family.finish(prop_id, tier, seed, t0, family._NoTLC(), None, [0], observed, verdict, dr,
-                                 {"replay_of": replay}, ASSUMPTIONS, label=label)
-        # several bounded configurations; ids of paths are made unique across them
-        tot = _Sum()
+        acc = _Acc()
+        tot = _G()
         tot.generated = tot.distinct = tot.depth = 0
         tot.wall = 0.0
-        all_obs, all_paths, per_cfg = [], [], []
+        if replay:
+            d = json.load(open(replay))
+            chains = d["trace"].get("chains")
+            if not chains:
+                raise core.MachineryError("replay file carries no chain table")
+            gen = chains_module([[[dict(id=t["id"], nout=t["nout"], ins=[tuple(i) for i in t["ins"]])
+                                   for t in blk] for blk in ch] for ch in chains], os.path.join(sc, "gen-replay"))
+            pf = os.path.join(sc, "paths.ndjson")
+            family.paths_from_replay(replay, pf)
+            replay_and_judge(prop_id, acc, binary, gen, chains, "replay", pf, sc)
+            return family.finish(prop_id, tier, seed, t0, family._NoTLC(), None, [0], acc.light, acc.verdict,
+                                 (acc.drift_steps, acc.drift_n, acc.drift_samples),
+                                 {"replay_of": replay}, ASSUMPTIONS, label=label)
+        all_paths, per_cfg = [], []
         n_edges = n_viol_edges = unreach_tot = 0
-        drift_steps = drift_n = 0
-        drift_samples = []
-        verdict_all = {"violations": [], "known": {}, "n_lines": 0, "wall": 0.0, "raw": 0}
-
-        class G:
-            edges = []
         for cfg in config(tier, seed):
-            tlc = run_tlc(cfg, sc)
+            tlc, gen = run_tlc(cfg, sc)
             g = core.Graph.load(tlc)
+            shutil.rmtree(tlc.workdir, ignore_errors=True)
             paths, unreach = core.edge_cover(g, rng)
             if tier == "thorough":
-                paths += core.random_walks(g, 1500, 40, rng)
+                paths += core.random_walks(g, 500, 40, rng)
             pf = os.path.join(sc, "paths-%s.ndjson" % cfg["name"])
             core.write_paths(g, paths, pf)
-            observed, log = family.run_driver(binary, "TestVerifUtxoScanReplay", pf,
-                                              os.path.join(sc, "obs-%s.ndjson" % cfg["name"]), sc, cwd=sc)
-            verdict = family.judge([SPEC], "UtxoScanProps", PROPS[prop_id], prop_id, observed, label=label)
-            ds, dn, dsm = family.drift(pf, observed, label=label)
-            for t in observed:
-                t["id"] = "%s/%s" % (cfg["name"], t["id"])
-            for v in verdict["violations"]:
-                v["trace"] = "%s/%s" % (cfg["name"], v["trace"])
-            for s in dsm:
-                s["trace"] = "%s/%s" % (cfg["name"], s["trace"])
+            ne, nv = len(g.edges), sum(1 for e in g.edges if e[4])
+            del g
+            t_rep = time.time()
+            h0, p0 = acc.hung, acc.panics
+            dn = replay_and_judge(prop_id, acc, binary, gen, cfg["chains"], cfg["name"], pf, sc)
+            os.remove(pf)
+            print("[%s] tlc %.0fs states %d edges %d paths %d replay+judge %.0fs" % (
+                cfg["name"], tlc.wall, tlc.distinct, ne, len(paths), time.time() - t_rep), file=sys.stderr)
             tot.generated += tlc.generated
             tot.distinct += tlc.distinct
             tot.depth = max(tot.depth, tlc.depth)
             tot.wall += tlc.wall
-            n_edges += len(g.edges)
-            n_viol_edges += sum(1 for e in g.edges if e[4])
+            n_edges += ne
+            n_viol_edges += nv
             unreach_tot += unreach
-            all_obs += observed
-            all_paths += paths
-            drift_steps += ds
-            drift_n += dn
-            drift_samples += dsm[:3]
-            verdict_all["violations"] += verdict["violations"]
-            verdict_all["n_lines"] += verdict["n_lines"]
-            verdict_all["wall"] += verdict["wall"]
-            for k, v in verdict["known"].items():
-                if k in verdict_all["known"]:
-                    verdict_all["known"][k]["count"] += v["count"]
-                else:
-                    verdict_all["known"][k] = v
-            hung = sum(1 for t in observed for s in t["steps"] if s["obs"].get("pc") == 9)
-            per_cfg.append({"name": cfg["name"], "constants": {k: cfg[k] for k in
-                                                               ("MaxReq", "MaxFail", "AllowStop", "FalsePos", "best0s")},
-                            "heights": [len(c) for c in cfg["chains"]], "catalogue": len(cfg["cat"]),
-                            "states": tlc.distinct, "edges": len(g.edges), "tlc_wall_s": round(tlc.wall, 1),
-                            "paths": len(paths), "drift_paths": dn, "hung_steps": hung,
-                            "model_violating_edges": sum(1 for e in g.edges if e[4])})
-            G.edges = G.edges + g.edges
-        return family.finish(prop_id, tier, seed, t0, tot, G, all_paths, all_obs, verdict_all,
-                             (drift_steps, drift_n, drift_samples),
+            all_paths += [len(p) for p in paths]
+            per_cfg.append({"name": cfg["name"],
+                            "constants": {k: cfg[k] for k in ("MaxReq", "MaxFail", "AllowStop", "FalsePos", "best0s")},
+                            "chains": cfg["chains"], "catalogue": [list(c) for c in cfg["cat"]],
+                            "states": tlc.distinct, "edges": ne, "tlc_wall_s": round(tlc.wall, 1),
+                            "paths": len(paths), "drift_paths": dn, "hung_steps": acc.hung - h0,
+                            "panic_steps": acc.panics - p0, "model_violating_edges": nv})
+        g = _G()
+        g.edges = [(0, 0, 0, 0, i < n_viol_edges) for i in range(n_edges)]   # counts only, for family.finish
+        return family.finish(prop_id, tier, seed, t0, tot, g, all_paths, acc.light, acc.verdict,
+                             (acc.drift_steps, acc.drift_n, acc.drift_samples),
                              {"configs": per_cfg, "code_version": CODE_VERSION,
                               "edges_only_reachable_through_model_violation": unreach_tot},
                              ASSUMPTIONS, label=label)
